@@ -10,6 +10,11 @@ use lsp_types::{
     UnregistrationParams,
 };
 use serde::de::DeserializeOwned;
+#[cfg(feature = "verif")]
+use crate::verif_locks::Mutex;
+#[cfg(feature = "verif")]
+use tokio::{select, sync::oneshot};
+#[cfg(not(feature = "verif"))]
 use tokio::{
     select,
     sync::{Mutex, oneshot},
